@@ -394,9 +394,64 @@ func doTable(req tableReq) (resp tableResp) {
 	return
 }
 
+// escapeReq asks either for unescape(Lit) or for the LITERAL / CLASS_CHAR
+// tokens of the front-end lexer over Src.
+type escapeReq struct {
+	Op  string `json:"op"`
+	Lit []int  `json:"lit,omitempty"`
+	Src []int  `json:"src,omitempty"`
+}
+
+type escapeResp struct {
+	Out   []int       `json:"out"`
+	Panic string      `json:"panic,omitempty"`
+	Toks  []escapeTok `json:"toks,omitempty"`
+}
+
+type escapeTok struct {
+	Type string `json:"type"`
+	Str  []int  `json:"str"`
+}
+
+func toBytes(a []int) []byte {
+	b := make([]byte, len(a))
+	for i, x := range a {
+		b[i] = byte(x)
+	}
+	return b
+}
+
+func fromBytes(b []byte) []int {
+	a := make([]int, len(b))
+	for i, x := range b {
+		a[i] = int(x)
+	}
+	return a
+}
+
+func doEscape(req escapeReq) (resp escapeResp) {
+	defer func() {
+		if e := recover(); e != nil {
+			resp.Panic = fmt.Sprint(e)
+		}
+	}()
+	switch req.Op {
+	case "unescape":
+		out, p := parser.VerifUnescape(toBytes(req.Lit))
+		resp.Out, resp.Panic = fromBytes(out), p
+	case "tokens":
+		for _, t := range parser.VerifTokens(toBytes(req.Src)) {
+			resp.Toks = append(resp.Toks, escapeTok{Type: t.Type, Str: fromBytes(t.Str)})
+		}
+	default:
+		resp.Panic = "bad op"
+	}
+	return
+}
+
 func main() {
 	if len(os.Args) < 2 {
-		fmt.Fprintln(os.Stderr, "usage: loxverif dump <dir> | ranges | table")
+		fmt.Fprintln(os.Stderr, "usage: loxverif dump <dir> | ranges | table | escape")
 		os.Exit(2)
 	}
 	out := bufio.NewWriter(os.Stdout)
@@ -422,6 +477,15 @@ func main() {
 				break
 			}
 			enc.Encode(doRange(req))
+		}
+	case "escape":
+		dec := json.NewDecoder(bufio.NewReader(os.Stdin))
+		for {
+			var req escapeReq
+			if err := dec.Decode(&req); err != nil {
+				break
+			}
+			enc.Encode(doEscape(req))
 		}
 	case "table":
 		dec := json.NewDecoder(bufio.NewReader(os.Stdin))
